@@ -270,8 +270,16 @@ func contextRefName(contextOfCall protoreflect.Descriptor, refElement protorefle
 
 	if contextOfCall.ParentFile().Package() != refElement.ParentFile().Package() {
 		// if the thing the field references is in a different package, then the
-		// full reference is used
-		return string(refElement.FullName()), nil
+		// full reference is used. Without a leading dot it is still looked up
+		// from the innermost scope outwards: when an enclosing scope, or the
+		// package of this file or one of its parents, declares the first
+		// component (file of package a.b referring to b.X), the dot is needed.
+		fullName := string(refElement.FullName())
+		first, _, _ := strings.Cut(fullName, ".")
+		if capturedBeforeRoot(contextOfCall, first) {
+			return "." + fullName, nil
+		}
+		return fullName, nil
 	}
 
 	refPath := pathToPackage(refElement)
@@ -325,6 +333,81 @@ func declaresName(scope protoreflect.Descriptor, name string) bool {
 		}
 	case protoreflect.ServiceDescriptor:
 		return scope.Methods().ByName(n) != nil
+	}
+	return false
+}
+
+// capturedBeforeRoot reports whether a relative name starting with first,
+// written in the scope of contextOfCall, is picked up by one of the enclosing
+// messages (or the service), or by the package of the file or one of its
+// parent packages, before the lookup reaches the root namespace.
+func capturedBeforeRoot(contextOfCall protoreflect.Descriptor, first string) bool {
+	var scope protoreflect.Descriptor = contextOfCall
+	for scope != nil {
+		if _, isFile := scope.(protoreflect.FileDescriptor); isFile {
+			break
+		}
+		if declaresName(scope, first) {
+			return true
+		}
+		scope = scope.Parent()
+	}
+	file := contextOfCall.ParentFile()
+	for pkg := file.Package(); pkg != ""; pkg = pkg.Parent() {
+		if visibleFrom(file, pkg.Append(protoreflect.Name(first))) {
+			return true
+		}
+	}
+	return false
+}
+
+// visibleFrom reports whether name is a package (or a parent of one) or a
+// top-level declaration of the file, of one of its imports or of their public
+// imports: the files a name in this file is resolved against.
+func visibleFrom(file protoreflect.FileDescriptor, name protoreflect.FullName) bool {
+	seen := map[string]bool{}
+	var visit func(f protoreflect.FileDescriptor, publicOnly bool) bool
+	visit = func(f protoreflect.FileDescriptor, publicOnly bool) bool {
+		if f == nil || seen[f.Path()] {
+			return false
+		}
+		seen[f.Path()] = true
+		if fileDeclares(f, name) {
+			return true
+		}
+		imports := f.Imports()
+		for i := 0; i < imports.Len(); i++ {
+			imp := imports.Get(i)
+			if publicOnly && !imp.IsPublic {
+				continue
+			}
+			if visit(imp.FileDescriptor, true) {
+				return true
+			}
+		}
+		return false
+	}
+	return visit(file, false)
+}
+
+func fileDeclares(f protoreflect.FileDescriptor, name protoreflect.FullName) bool {
+	pkg := f.Package()
+	if pkg == name || strings.HasPrefix(string(pkg), string(name)+".") {
+		return true
+	}
+	if name.Parent() != pkg {
+		return false
+	}
+	n := name.Name()
+	if f.Messages().ByName(n) != nil || f.Enums().ByName(n) != nil ||
+		f.Services().ByName(n) != nil || f.Extensions().ByName(n) != nil {
+		return true
+	}
+	enums := f.Enums()
+	for i := 0; i < enums.Len(); i++ {
+		if enums.Get(i).Values().ByName(n) != nil {
+			return true
+		}
 	}
 	return false
 }
